@@ -57,12 +57,13 @@ inline int Exec::need_new(int ki) {
     return K.news.empty() ? -1 : (int)c.draw(K.news.size());
 }
 
-inline void Exec::new_alloc(int ki, bool force_valid, bool small) {
+inline void Exec::new_alloc(int ki, bool force_valid, bool small, const AllocSpec *spec) {
     CalObj &K = *cals[ki];
     if (K.news.size() >= 3) new_free(ki, (int)c.draw(K.news.size()));
     int ty = (int)c.draw(8), r, cc, F;
     cs::gen_dims(c, ty, small ? 2 : (c.chance(1, 10) ? 4 : 3), r, cc);
     F = 1 + c.weighted({5, 3, 2, 1, 1, 1});
+    if (spec) { force_valid = true; if (spec->ty >= 0) { ty = spec->ty; r = spec->r; cc = spec->c; } F = spec->F; }
     int type = (int)cs::LIBTYPE[ty];
     const char *why = "valid"; bool ok = true;
     if (!force_valid && c.chance(1, 6)) {
@@ -104,7 +105,7 @@ inline void Exec::new_alloc(int ki, bool force_valid, bool small) {
     N->p = p; N->ty = ty; N->r = r; N->c = cc; N->F = F;
     cs::Scenario &sc = N->sc;
     sc.type = ty; sc.r = r; sc.c = cc; sc.P = std::max(r, cc); sc.F = F; sc.ab = false;
-    sc.freq = cs::gen_freqs(c, F);
+    sc.freq = (spec && !spec->freq.empty()) ? spec->freq : cs::gen_freqs(c, F);
     for (int f = 0; f < F; f++) sc.box.push_back(cs::gen_box(c, ty, r, cc));
     if (F > 0) {
         cs::Gen g(c, sc);
@@ -113,7 +114,9 @@ inline void Exec::new_alloc(int ki, bool force_valid, bool small) {
     }
     K.news.push_back(std::move(N));
     int ni = (int)K.news.size() - 1;
-    if ((F > 0 || no_exclude) && (force_valid || !c.chance(1, 6))) new_setfreq(ki, ni);
+    if (spec && spec->defer_freq) return;
+    // 1 in 4 objects get their frequency vector later, after some standards ("setfreq-after-adds")
+    if ((F > 0 || no_exclude) && (force_valid || !c.chance(1, 4))) new_setfreq(ki, ni, force_valid);
 }
 
 inline void Exec::new_free(int ki, int ni) {
@@ -127,12 +130,12 @@ inline void Exec::new_free(int ki, int ni) {
     K.news.erase(K.news.begin() + ni);
 }
 
-inline void Exec::new_setfreq(int ki, int ni) {
+inline void Exec::new_setfreq(int ki, int ni, bool force_valid) {
     CalObj &K = *cals[ki]; NewObj &N = *K.news[ni];
     if (N.F == 0) { excl_zero_freq = true; if (!no_exclude) return; }
     std::vector<double> fv = N.sc.freq;
     const char *why = "valid"; bool ok = true;
-    if (N.F > 0 && c.chance(1, 6)) {
+    if (N.F > 0 && !force_valid && c.chance(1, 6)) {
         switch (c.draw(3)) {
         case 0: fv[c.draw(fv.size())] = -1e6; why = "negative-frequency"; ok = false; break;
         case 1: if (N.F >= 2) { std::swap(fv[0], fv[N.F - 1]); why = "not-ascending"; ok = false; } break;
@@ -141,7 +144,13 @@ inline void Exec::new_setfreq(int ki, int ni) {
     }
     auto fb = std::make_shared<Buf<double>>(fv.size()); for (size_t j = 0; j < fv.size(); j++) (*fb)[j] = fv[j];
     c.note("vnacal_new_set_frequency_vector(k%d.n%d, [%d] %g..%g)%s", ki, ni, N.F, fv.empty() ? 0.0 : fv.front(), fv.empty() ? 0.0 : fv.back(), ok ? "" : "  [invalid]");
-    Call k = mk("vnacal_new_set_frequency_vector", ok ? XP_OK : XP_FAIL, C_USAGE, why, O_NEW, ki, ni);
+    // A valid grid is refused exactly when a parameter of an ACCEPTED standard misses the band (here by a factor >= 40; the
+    // library's own slack is ~1 %).  Parameters that only REJECTED standards referenced must not matter ("a rejected
+    // standard adds nothing"): then the call must succeed -- XP_MUST, the clause itself.
+    Expect ex = !ok ? XP_FAIL : N.noncover ? XP_FAIL : (N.F > 0 ? XP_MUST : XP_OK);
+    if (ok && N.noncover) why = "accepted-parameter-misses-band";
+    if (N.adds_attempted > 0) c.label("setfreq-after-adds");
+    Call k = mk("vnacal_new_set_frequency_vector", ex, C_USAGE, why, O_NEW, ki, ni);
     int rc = icall(k, [&] { return vnacal_new_set_frequency_vector(N.p, fb->p); });
     if (rc == 0) { N.freq_set = true; N.hist.push_back([fb](vnacal_new_t *p, const std::function<int(int)> &) { return vnacal_new_set_frequency_vector(p, fb->p); }); N.hist_desc.push_back("set_frequency_vector"); }
     else N.refused++;
@@ -245,14 +254,15 @@ inline int Exec::cell_param(int ki, NewObj &N, cs::SCell &cell) {
     return make_vector(ki, N.sc.freq, g);
 }
 
-inline void Exec::new_add(int ki, int ni, bool allow_bad) {
+inline void Exec::new_add(int ki, int ni, bool allow_bad, int force_twist) {
     CalObj &K = *cals[ki]; NewObj &N = *K.news[ni];
     if (N.F == 0) { excl_zero_freq = true; return; }
     cs::Scenario &sc = N.sc;
     int P = sc.P;
     // the standard: next of the baseline set, or an extra one
     cs::Standard st; bool from_todo = false;
-    if (!N.todo.empty() && !c.chance(1, 5)) { st = N.todo.back(); from_todo = true; }
+    if (force_twist == 9 && P >= 2) { cs::Gen g(c, sc); auto pp = g.perm_ports(2); st = g.dbl(pp[0], pp[1], cs::rnd_disk(c, 0, 1.0L), cs::rnd_disk(c, 0, 1.0L), false, 0); }
+    else if (!N.todo.empty() && !c.chance(1, 5)) { st = N.todo.back(); from_todo = true; }
     else {
         cs::Gen g(c, sc);
         switch (c.weighted({3, P >= 2 ? 2u : 0u, P >= 2 ? 3u : 0u, 2})) {
@@ -275,11 +285,13 @@ inline void Exec::new_add(int ki, int ni, bool allow_bad) {
     a->br = MB.rows; a->bc = MB.cols; a->ar = MA.rows; a->ac = MA.cols;
     // ---- optional invalid twist
     Expect ex = XP_OK; const char *why = "valid"; unsigned cz = C_USAGE;
-    bool zero_a = false;
+    bool zero_a = false, noncover_cell = false;
     int hist_sub_j = -1, hist_sub_q = -1;      // clone history: the clone uses its own (undeleted) twin of a deleted handle
-    if (allow_bad && c.chance(1, 4)) {
+    if (force_twist >= 0 || (allow_bad && c.chance(1, 4))) {
         int nh = (int)a->pidx.size();
-        switch (c.weighted({2, 2, a->ab ? 2u : 0u, 2, st.k >= 2 ? 1u : 0u, nh > 0 ? 3u : 0u, st.entry == cs::Standard::MAPPED ? 2u : 0u, (st.entry == cs::Standard::MAPPED && st.k < P) ? 2u : 0u, a->ab ? 2u : 0u})) {
+        int tw = force_twist >= 0 ? force_twist : c.weighted({2, 2, a->ab ? 2u : 0u, 2, st.k >= 2 ? 1u : 0u, nh > 0 ? 3u : 0u, st.entry == cs::Standard::MAPPED ? 2u : 0u, (st.entry == cs::Standard::MAPPED && st.k < P) ? 2u : 0u, a->ab ? 2u : 0u, nh > 0 ? 2u : 0u});
+        if (tw == 9 && nh == 0) tw = 3;
+        switch (tw) {
         case 0: a->br = c.weighted({2, 1, 1}) == 0 ? P + 1 : (c.boolean() ? 0 : -1); ex = XP_FAIL; why = "bad-matrix-dimensions"; break;
         case 1: a->bc = c.weighted({2, 1, 1}) == 0 ? P + 1 : (c.boolean() ? 0 : -1); ex = XP_FAIL; why = "bad-matrix-dimensions"; if (a->ab) { a->ac = a->bc; if (!vm::is_colsys(sc.type)) a->ar = a->bc; } break;
         case 2: if (c.boolean()) a->ar += 1; else a->ac = std::max(0, a->ac - 1); ex = XP_FAIL; why = "bad-a-dimensions"; break;
@@ -304,6 +316,28 @@ inline void Exec::new_add(int ki, int ni, bool allow_bad) {
             ex = XP_FAIL; why = "bad-s-dimensions"; break;
         }
         case 7: a->null_map = true; ex = XP_FAIL; why = "null-port-map"; break;
+        case 9: {
+            // cell j0 becomes a vector parameter whose grid misses the calibration band by a factor >= 40 (1..3 Hz, or 10..30 THz).
+            // With the frequency vector set the standard is refused (the parameter cannot be evaluated in the band); before it is
+            // set the standard is accepted and the later vnacal_new_set_frequency_vector must fail.  Optionally a LATER cell gets
+            // an invalid handle: the standard is rejected after the vector parameter was looked up, and must leave no trace.
+            size_t j0 = nh >= 2 ? c.draw((size_t)nh - 1) : 0;
+            bool below = c.boolean(); int n = (int)c.range(1, 3);
+            std::vector<double> fv; std::vector<dcx> gv;
+            for (int q = 0; q < n; q++) { fv.push_back(below ? 1.0 + q : 1e13 * (1 + q)); gv.push_back(gval()); }
+            int pv = make_vector(ki, fv, gv);
+            if (pv < 0) return;
+            a->pidx[j0] = pv; noncover_cell = true;
+            if (N.freq_set) { ex = XP_FAIL; why = "vector-misses-band"; } else { ex = XP_OK; why = "noncovering-vector-before-setfreq"; }
+            if (nh >= 2 && (force_twist == 9 || c.boolean())) {
+                size_t j1 = j0 + 1 + c.draw((size_t)nh - 1 - j0);
+                const char *w2 = "";
+                a->pidx[j1] = -1; a->raw[j1] = bad_handle(K, w2); ex = XP_FAIL; why = "noncovering-vector-then-bad-handle";
+                for (size_t q = 0; q < K.params.size(); q++) if (K.params[q].deleted && K.params[q].h == a->raw[j1] && N.registered.count((int)q)) { ex = XP_EITHER; why = "deleted-handle-still-referenced"; hist_sub_j = (int)j1; hist_sub_q = (int)q; }
+                if (ex == XP_FAIL) c.label("rejected-standard-with-noncovering-vector");
+            }
+            break;
+        }
         default: zero_a = true; ex = XP_FAIL; cz = C_MATH; why = "singular-a"; break;     // vnaerr(3): "'a' matrix is singular" is a MATH error
         }
     }
@@ -318,10 +352,12 @@ inline void Exec::new_add(int ki, int ni, bool allow_bad) {
     const char *fn = add_fn_name(a->entry, a->ab);
     c.note("%s(k%d.n%d, %s; m %dx%d%s)%s %s", fn, ki, ni, st.describe().c_str(), a->br, a->bc, a->ab ? (" a " + std::to_string(a->ar) + "x" + std::to_string(a->ac)).c_str() : "", ex == XP_FAIL ? "  [invalid]" : "", why);
     Call k = mk(fn, ex, ex == XP_FAIL ? cz : (C_USAGE | C_MATH), why, O_NEW, ki, ni);
+    N.adds_attempted++;
     int rc = icall(k, [&] { return do_add(N.p, *a, h); });
     if (rc == 0) {
         if (from_todo) N.todo.pop_back();
-        if (ex == XP_OK) sc.stds.push_back(st); else N.pristine = false;     // accepted although not known valid: no claims about solves any more
+        if (noncover_cell) N.noncover = true;
+        if (ex == XP_OK && !noncover_cell) sc.stds.push_back(st); else N.pristine = false;     // accepted although not known valid (or not the scenario's standard): no claims about solves any more
         if (!full_s) N.partial_s = true;
         for (int pi : a->pidx) for (int q = pi; q >= 0; q = K.params[q].other) N.registered.insert(q);     // a correlated parameter registers its correlate too
         std::vector<int> pidx = a->pidx, raw = a->raw;
@@ -335,13 +371,20 @@ inline void Exec::new_add(int ki, int ni, bool allow_bad) {
 }
 
 // a reflect standard whose reflection coefficient is an unknown (or correlated) parameter
-inline void Exec::new_add_unknown(int ki, int ni) {
+inline void Exec::new_add_unknown(int ki, int ni, int reuse) {
     CalObj &K = *cals[ki]; NewObj &N = *K.news[ni];
     if (N.F == 0) { excl_zero_freq = true; return; }
     cs::Scenario &sc = N.sc;
     cs::Gen g(c, sc);
     int port = (int)c.draw(std::min(sc.r, sc.c));
     vm::C gamma = cs::rnd_disk(c, 0.5L, 1.0L);
+    // the same unknown / correlated handle may serve several vnacal_new_t of the vnacal_t (each solve writes it back)
+    if (reuse < 0 && c.chance(1, 3)) {
+        std::vector<int> cand;
+        for (size_t q = 0; q < K.params.size(); q++) if (!K.params[q].deleted && K.params[q].has_truth && !N.registered.count((int)q)) cand.push_back((int)q);
+        if (!cand.empty()) reuse = cand[c.draw(cand.size())];
+    }
+    if (reuse >= 0) { gamma = K.params[reuse].truth; c.label("unknown-handle-shared-between-vnacal_new"); }
     bool dbl = sc.P >= 2 && c.chance(1, 3);
     cs::Standard st;
     if (dbl) { int q = (port + 1 + (int)c.draw(sc.P - 1)) % sc.P; st = g.dbl(port, q, gamma, cs::rnd_disk(c, 0, 1.0L), true, 0); }
@@ -349,12 +392,14 @@ inline void Exec::new_add_unknown(int ki, int ni) {
     // cell 0 becomes the unknown: guess = truth * (1 + delta)
     st.cells[0].kind = cs::SCell::SCALAR; st.cells[0].v.assign(sc.F, gamma);
     g.finish(st);
-    vm::C guess = gamma * (vm::C(1, 0) + cs::rnd_disk(c, 0, 0.1L));
-    int gi = make_scalar(ki, mkc((double)guess.real(), (double)guess.imag()));
-    if (gi < 0) return;
-    bool corr = c.chance(1, 3);
-    int ui;
-    {
+    bool corr = false;
+    int ui = reuse;
+    if (reuse >= 0) corr = K.params[reuse].kind == ParamRec::CORRELATED;
+    else {
+        vm::C guess = gamma * (vm::C(1, 0) + cs::rnd_disk(c, 0, 0.1L));
+        int gi = make_scalar(ki, mkc((double)guess.real(), (double)guess.imag()));
+        if (gi < 0) return;
+        corr = c.chance(1, 3);
         double sigma = 0.01;
         Buf<double> sb(1); sb[0] = sigma;
         c.note("vnacal_make_%s_parameter(k%d, guess %d)", corr ? "correlated" : "unknown", ki, K.params[gi].h);
@@ -363,6 +408,7 @@ inline void Exec::new_add_unknown(int ki, int ni) {
         int nh = corr ? icall(k, [&] { return vnacal_make_correlated_parameter(K.p, gh, nullptr, 1, sb.p); }) : icall(k, [&] { return vnacal_make_unknown_parameter(K.p, gh); });
         if (nh < 0) return;
         ParamRec q; q.kind = corr ? ParamRec::CORRELATED : ParamRec::UNKNOWN; q.h = nh; q.other = gi; q.sfv_null = true; q.sfv = {1e6}; q.sv = {sigma};
+        q.has_truth = true; q.truth = gamma;
         K.params.push_back(q); K.max_h = std::max(K.max_h, nh);
         ui = (int)K.params.size() - 1;
         check_param_index(ki, ui);
@@ -393,6 +439,7 @@ inline void Exec::new_add_unknown(int ki, int ni) {
     const char *fn = add_fn_name(a->entry, a->ab);
     c.note("%s(k%d.n%d, %s, s11 = %s parameter %d)%s", fn, ki, ni, st.describe().c_str(), corr ? "correlated" : "unknown", K.params[ui].h, ex == XP_FAIL ? "  [invalid]" : "");
     Call k = mk(fn, ex, C_USAGE | C_MATH, why, O_NEW, ki, ni);
+    N.adds_attempted++;
     int rc = icall(k, [&] { return do_add(N.p, *a, h); });
     if (rc == 0) {
         N.pristine = false;
@@ -408,7 +455,12 @@ inline void Exec::new_add_unknown(int ki, int ni) {
     } else N.refused++;
 }
 
-inline void Exec::new_solve(int ki, int ni) {
+// a successful solve wrote every unknown / correlated parameter of N back, over N's frequencies
+inline void Exec::mark_solved(CalObj &K, NewObj &N) {
+    for (int pi : N.registered) if (K.params[pi].kind >= ParamRec::UNKNOWN) { K.params[pi].solved = true; K.params[pi].solved_grid = N.sc.freq; }
+}
+
+inline bool Exec::new_solve(int ki, int ni) {
     CalObj &K = *cals[ki]; NewObj &N = *K.news[ni];
     cs::Scenario &sc = N.sc;
     Expect ex = XP_EITHER; const char *why = "gray"; long double kappa = 0;
@@ -429,14 +481,15 @@ inline void Exec::new_solve(int ki, int ni) {
     Call k = mk("vnacal_new_solve", ex, C_MATH | C_USAGE, why, O_NEW, ki, ni); k.late = true;
     int rc = icall(k, [&] { return vnacal_new_solve(N.p); });
     did_solve = true;
-    if (rc != 0) { N.failed_solve = true; return; }
+    if (rc != 0) { N.failed_solve = true; return false; }
     N.has_cal = true; N.ever_solved = true;
-    if (!(ex == XP_MUST)) return;
+    mark_solved(K, N);
+    if (!(ex == XP_MUST)) return true;
     // "a failed solve can be retried after adding standards": the calibration must also be the right one
     N.retried = true; did_retry = true;
     Call ka = mk("vnacal_add_calibration", XP_MUST, C_USAGE, "after-retry", O_CAL, ki);
     int ci = icall(ka, [&] { return vnacal_add_calibration(K.p, "retry", N.p); });
-    if (ci < 0) return;
+    if (ci < 0) return true;
     N.has_cal = false;
     ci = vnacal_find_calibration(K.p, "retry");
     RunnerGuard rg(c, sc, K.p, N.p);
@@ -459,6 +512,7 @@ inline void Exec::new_solve(int ki, int ni) {
         }
     }
     vnacal_delete_calibration(K.p, ci);
+    return true;
 }
 
 // failed solve -> (refused call) -> missing standards -> solve again
@@ -497,12 +551,76 @@ inline void Exec::quick_calibration(int ki) {
     if (ci >= 0) { N.has_cal = false; check_cal_index(ki, ci, name, &N); }
 }
 
+// One unknown (or correlated) handle solved by two vnacal_new_t of the same vnacal_t, the second over FEWER frequencies
+// taken from the first one's grid; then vnacal_get_parameter_value across both ranges: "returns the most recent value
+// computed by vnacal_new_solve()", so only the LAST solve's range answers, everything else is the failure value.
+inline void Exec::shared_unknown_scenario(int ki) {
+    CalObj &K = *cals[ki];
+    AllocSpec s1; s1.ty = (int)c.draw(8); s1.r = s1.c = 1; s1.F = (int)c.range(2, 6);
+    new_alloc(ki, true, true, &s1);
+    if (K.news.empty()) return;
+    int n1 = (int)K.news.size() - 1;
+    if (!K.news[n1]->freq_set) return;
+    std::vector<double> f1 = K.news[n1]->sc.freq;
+    for (int guard = 0; guard < 16 && !K.news[n1]->todo.empty(); guard++) new_add(ki, n1, false);
+    size_t before = K.params.size();
+    new_add_unknown(ki, n1);
+    int u = -1;
+    for (size_t q = before; q < K.params.size(); q++) if (K.params[q].has_truth) u = (int)q;
+    if (u < 0 || !K.news[n1]->registered.count(u)) return;
+    if (!new_solve(ki, n1)) return;
+    // second object: fewer frequencies, a run of the first grid (3 in 4: its lower end, so that old-only frequencies lie above)
+    AllocSpec s2; s2.ty = (int)c.draw(8); s2.r = s2.c = 1; s2.F = (int)c.range(1, s1.F - 1);
+    size_t start = c.chance(1, 4) ? c.draw((size_t)(s1.F - s2.F) + 1) : 0;
+    s2.freq.assign(f1.begin() + start, f1.begin() + start + s2.F);
+    new_alloc(ki, true, true, &s2);
+    int n2 = (int)K.news.size() - 1;
+    if (!K.news[n2]->freq_set || K.news[n2]->F != s2.F) return;
+    for (int guard = 0; guard < 16 && !K.news[n2]->todo.empty(); guard++) new_add(ki, n2, false);
+    if (K.params[u].deleted) return;
+    new_add_unknown(ki, n2, u);
+    if (!K.news[n2]->registered.count(u)) return;
+    if (!new_solve(ki, n2)) return;
+    c.label("shared-unknown-resolved:smaller-grid");
+    const std::vector<double> &f2 = K.news[n2]->sc.freq;
+    int h = K.params[u].h;
+    auto query = [&](double f, Expect ex, const char *why) {
+        c.note("vnacal_get_parameter_value(k%d, %d, %g)  %s", ki, h, f, why);
+        Call k = mk("vnacal_get_parameter_value", ex, C_USAGE, why, O_CAL, ki);
+        ccall(k, [&] { return vnacal_get_parameter_value(K.p, h, f); });
+    };
+    query(f2[c.draw(f2.size())], XP_MUST, "solved-unknown:inside-last-range");
+    if (f2.size() >= 2) query(0.5 * (f2.front() + f2.back()), XP_MUST, "solved-unknown:inside-last-range");
+    // frequencies of the FIRST solve that the last one does not cover (>= 5 % outside; the library's slack is 1 %)
+    for (double f : f1) if (f > f2.back() * 1.04 || f < f2.front() * 0.96) { c.label("param-query:old-range-only"); query(f, XP_FAIL, "solved-unknown:old-range-only"); }
+    query(f1.back() * 2 + 1e6, XP_FAIL, "solved-unknown:outside-both-ranges");
+}
+
+// "a rejected standard adds nothing": the frequency vector is loaded AFTER a standard was rejected that carried a vector
+// parameter whose grid misses the band -- vnacal_new_set_frequency_vector must still succeed (XP_MUST in new_setfreq)
+inline void Exec::late_setfreq_scenario(int ki) {
+    CalObj &K = *cals[ki];
+    AllocSpec sp; sp.ty = (int)c.draw(8); sp.r = sp.c = 2; sp.F = (int)c.range(1, 4); sp.defer_freq = true;
+    new_alloc(ki, true, true, &sp);
+    if (K.news.empty()) return;
+    int ni = (int)K.news.size() - 1;
+    if (K.news[ni]->freq_set) return;
+    size_t some = c.draw(3);
+    for (size_t j = 0; j < some && !K.news[ni]->todo.empty(); j++) new_add(ki, ni, false);
+    new_add(ki, ni, true, 9);
+    if (c.chance(1, 3) && !K.news[ni]->todo.empty()) new_add(ki, ni, false);
+    new_setfreq(ki, ni, true);
+    if (c.boolean()) { for (int guard = 0; guard < 32 && !K.news[ni]->todo.empty(); guard++) new_add(ki, ni, false); new_solve(ki, ni); }
+}
+
 inline void Exec::op_new() {
     int ki = need_cal();
     if (ki < 0) return;
-    int w = c.weighted({30, 3, 2, 2, 5, 4, 4, 8, 3});
+    int w = c.weighted({30, 3, 2, 2, 5, 4, 4, 8, 3, 2, 2});
     if (w == 1) { new_alloc(ki); return; }
     if (w == 8) { new_retry_scenario(ki); return; }
+    if (w == 9) { shared_unknown_scenario(ki); return; }
+    if (w == 10) { late_setfreq_scenario(ki); return; }
     int ni = need_new(ki);
     if (ni < 0) return;
     switch (w) {
